@@ -118,9 +118,12 @@ ATOMS = [
      "2.0000"),
     ("HETATM", 1234, "HH11", "ARG", "B", 215, "0.000", "-0.500", "100.250",
      "0.4600", "0.0000"),
+    # chain ids may be digits
+    ("ATOM", 77, "O", "HOH", "2", 5, "7.250", "-3.125", "9.500", "-0.8340",
+     "1.7683"),
 ]
 ATOM_LISTS = [(0, "fixed")] + [
-    (n, lay) for n in (1, 2, 3) for lay in ("fixed", "ws")
+    (n, lay) for n in (1, 2, 3, 4) for lay in ("fixed", "ws")
 ]
 
 _EXP_MAG = [-30, -20, -10, -5, -3, -1, 0, 1, 2, 3, 5]
